@@ -540,3 +540,10 @@ Lemma truncate_marks_newest_slot c hto p k : cur k <> p ->
 Proof.
   intros H. unfold col_truncate. destruct (Z.eqb_spec (cur k) p); [contradiction|]. cbn [close_episode sl]. unfold fupd. rewrite Z.eqb_refl. reflexivity.
 Qed.
+
+(* the scripted environment's compute_reward is a PAIRING of (info tag, next achieved goal, new goal) on the tag ranges the harness uses:
+   a wrong argument in any position changes the reward *)
+Lemma reward_tag_injective i a d i' a' d' :
+  0 <= a < 512 -> 0 <= d < 512 -> 0 <= a' < 512 -> 0 <= d' < 512 ->
+  reward_tag i a d = reward_tag i' a' d' -> i = i' /\ a = a' /\ d = d'.
+Proof. unfold reward_tag. intros. lia. Qed.
